@@ -74,7 +74,13 @@ End ==
        /\ seen = ISum([d \in 1 .. Len(params) |-> params[d].bx * params[d].by])
     /\ l' = l + 1 /\ UNCHANGED <<n, params, acc, seen>>
 
-Next == Fill1 \/ Mid \/ Begin \/ Fill \/ BinResult \/ End
+\* several iterations combined: every bin of the combination is the combination of that bin's own results, also for an iteration in which
+\* no evaluation of the integrand itself was non-zero (quietNz = 0 is the driver's premise)
+AccBins ==
+    /\ l <= TraceLen
+    /\ LET e == TheTrace[l] IN e.e = "AccBins" /\ e.quietNz = 0 /\ e.nbins > 0 /\ e.badVar = 0 /\ e.badEq = 0
+    /\ l' = l + 1 /\ UNCHANGED <<n, params, acc, seen>>
+Next == Fill1 \/ Mid \/ Begin \/ Fill \/ BinResult \/ End \/ AccBins
 Spec == Init /\ [][Next]_vars
 \* the specification may branch on edge fills: accept if some behaviour consumes the whole trace
 TraceAccepted == TraceAcceptedBy(TraceLen)
